@@ -94,6 +94,10 @@ def rand_scenario(rng, family, policies=False):
         cfg["selfhints"] = False
     if rng.random() < 0.3:
         cfg["paytimeout"] = rng.choice([1, 2, 3])     # short payment timeout: a waitsendpay timeout, if requested, can fire
+    if rng.random() < 0.08:
+        # the largest MPP timeout the option accepts ("never time out"): the trace carries 1_000_000
+        cfg["mpp"] = 1000000
+        cfg["mpp_real"] = rng.choice([2**63 - 1, 2**63 - 1, 2**62, 10**12])
     p = pool(cfg, A)
     hs = []
     if family == "base":
